@@ -711,6 +711,30 @@ chain_run(Params *p)
 			add(c.devs[(size_t) c.k - 1].back, q->s);
 	wire_links(links, 100);
 	sim_quiesce(20000000);
+	// the hop limit is an option of the socket, not of a connection: changing it
+	// once the peers are connected applies to what arrives from then on
+	if (W(0, 1) == 1) {
+		auto reset_ttl = [&](nng_socket s, int *model) {
+			if (W(0, 1) == 0)
+				return;
+			int t = (int) W(1, 15);
+			MUST(nng_socket_set_int(s, NNG_OPT_MAXTTL, t));
+			*model = get_ttl(s);
+			if (*model != t)
+				VIOL("ttl_option", "MAXTTL set to %d reads back %d", t, *model);
+			sim_probe("c13_ttl_changed_after_connect");
+		};
+		for (auto &d : c.devs) {
+			reset_ttl(d.front, &d.tf);
+			if (c.fam == FAM_PAIR)
+				reset_ttl(d.back, &d.tb);
+		}
+		for (auto q : c.reps)
+			reset_ttl(q->s, &q->ttl);
+		if (c.fam == FAM_PAIR)
+			for (auto r : c.reqs)
+				reset_ttl(r->s, &r->ttl);
+	}
 	for (auto &d : c.devs)
 		dev_start(d);
 	sim_quiesce(2000000);
